@@ -168,9 +168,71 @@ def outputs_first_programs(rng, n):
     return out
 
 
+def closure_programs(rng, n):
+    """The converted ENTITY is a closure obtained from a factory: it declares `nonlocal v[, u]` and `global G` itself and
+    modifies these variables inside if / while / for statements (read-modify-write and write-only), so that the generated
+    getter / setter / body functions must declare exactly the entity's globals `global` and everything else `nonlocal`
+    (`_create_nonlocal_declarations`), and `set_state`/`get_state` must reach the closure cell resp. the module global.
+    Every run starts by resetting the closure variables, so runs are reproducible."""
+    out = []
+    for k in range(n):
+        two = rng.random() < 0.5
+        decl = 'v, u' if two else 'v'
+        L = ['import malt', 'def make(v0):', '    v = v0', '    u = 1', '    def f(a, b, c, l):',
+             '        nonlocal %s' % decl]
+        useG = rng.random() < 0.7
+        if useG:
+            L.append('        global G')
+        L += ['        v = b', '        x = a']
+        if two:
+            L.append('        u = c')
+        outer = ['v'] + (['u'] if two else []) + (['G'] if useG else [])
+        nloop = 0
+        for j in range(rng.randrange(1, 4)):
+            w = rng.choice(outer)
+            other = rng.choice(outer + ['x'])
+            upd = rng.choice(['%s = %s + %s' % (w, w, rng.choice(['a', 'x', '1'])), '%s = %s' % (w, rng.choice(['7', 'a', 'x + 1'])),
+                              '%s += 1' % w, '%s = tr(%d, %s)' % (w, 100 * k + j, other)])
+            ind = '        '
+            form = rng.randrange(5)
+            hdr = []
+            if form == 0:
+                hdr = ['if %s:' % rng.choice(['a > 0', 'b > a', 'd()', '%s > 1' % other])]
+            elif form == 1:
+                hdr = ['w%d = 0' % j, 'while w%d < %d:' % (j, rng.randrange(1, 3))]
+            elif form == 2:
+                hdr = ['for i%d in %s:' % (j, rng.choice(['l', 'range(a % 3)', 'n()']))]
+            elif form == 3:
+                hdr = ['for i%d in l:' % j, '    if %s:' % rng.choice(['i%d > 0' % j, 'd()'])]
+            else:
+                hdr = ['if %s:' % rng.choice(['c', 'a != b']), '    for i%d in range(2):' % j]
+            for h in hdr[:-1]:
+                L.append(ind + h)
+            L.append(ind + hdr[-1])
+            depth = ind + '    ' * (1 + (len(hdr[-1]) - len(hdr[-1].lstrip())) // 4)
+            loop_line = hdr[-1].lstrip()
+            if loop_line.startswith(('for ', 'while ')) and rng.random() < 0.4:
+                nloop += 1
+                L.append(depth + 'malt.experimental.set_loop_options(maximum_iterations=%d)' % (1500 + 10 * j))
+            if form == 1:
+                L.append(depth + 'w%d += 1' % j)
+            L.append(depth + upd)
+            if rng.random() < 0.4:
+                L.append(depth + 'x = x + %s' % w)
+            if form == 0 and rng.random() < 0.4:
+                L += [ind + 'else:', ind + '    %s = %s' % (rng.choice(outer), rng.choice(['0', 'x', 'b']))]
+        L.append('        return x, %s' % ', '.join(outer))
+        L += ['    return f', 'f = make(%d)' % rng.randrange(0, 5)]
+        inputs = [(1, 2, 3, [1, 2]), (0, 0, 0, [0]), (-1, 5, 0, [3, -1]), (2, 1, 1, [])]
+        feats = {'closure_entity', 'nonlocal', 'if', 'for', 'while'} | ({'global'} if useG else set()) | ({'directive'} if nloop else set())
+        out.append(progen.Program(progen.RANDOM_PRELUDE + '\n'.join(L) + '\n', inputs, feats, 'closure',
+                                  decisions=progen.decision_vectors(random.Random(rng.getrandbits(30)), 3)))
+    return out
+
+
 def expect_of_source(source):
     """Expectation table recomputed from a program text alone (replays / corpus)."""
-    cut = source.rindex('\ndef f(') + 1
+    cut = source.rfind('\ndef f(') + 1      # 0 when `f` is not a top-level def (closure entities): whole module
     expect = {'loops': {}, 'plain_for_targets': set(), 'plain_while': False}
     floops = _loops_preorder(ast.parse(source[cut:]), [])
     fkeys = {}
@@ -407,6 +469,7 @@ def gen_programs(run):
     rnd = list(progen.random_programs(random.Random(rng.getrandbits(32)), 200 if quick else 700, size=14))
     comp = composite_programs(random.Random(rng.getrandbits(32)), 60 if quick else 200)
     ofp = outputs_first_programs(random.Random(rng.getrandbits(32)), 60 if quick else 250)
+    clo = closure_programs(random.Random(rng.getrandbits(32)), 60 if quick else 250)
     out = []
     for p in sk + rnd + comp + ofp:
         density = rng.choice([0.0, 0.5, 0.5, 1.0])
@@ -415,6 +478,8 @@ def gen_programs(run):
         except Exception:  # noqa
             q, e = p, expect_of_source(p.source)
         out.append((q, e))
+    for p in clo:       # closure entities carry their own directives (the entity is not a top-level def)
+        out.append((p, expect_of_source(p.source)))
     return out, info
 
 
